@@ -36,6 +36,7 @@ type c18Step struct {
 	Ics  []int  `json:"interceptors,omitempty"`
 	Cli  int    `json:"client,omitempty"`
 	Verb string `json:"verb,omitempty"`
+	Inst int    `json:"instance,omitempty"`
 }
 
 type c18Scenario struct {
@@ -43,6 +44,7 @@ type c18Scenario struct {
 	NCli    int       `json:"clients"`
 	NilTr   bool      `json:"client0_has_nil_transport"`
 	Initial []int     `json:"initial_interceptors"`
+	Twin    bool      `json:"two_instances_from_one_slice"`
 	Steps   []c18Step `json:"steps"`
 
 	h      *Hist
@@ -70,6 +72,9 @@ func genC18(t *simrt.Tape, tier string) Scenario {
 	if t.Bool(1, 2) {
 		sc.Initial = pick()
 	}
+	// two SimpleHTTP objects constructed from the same interceptor slice (with spare capacity): what one
+	// instance registers must never show up in the other
+	sc.Twin = t.Bool(1, 4)
 	maxSteps := 8
 	if tier == "thorough" {
 		maxSteps = 14
@@ -94,6 +99,15 @@ func genC18(t *simrt.Tape, tier string) Scenario {
 		}
 	}
 	sc.Steps = append(sc.Steps, c18Step{Kind: "Request", Verb: verbs[t.Choose(len(verbs))]})
+	if sc.Twin {
+		for i := range sc.Steps {
+			switch sc.Steps[i].Kind {
+			case "Add", "Remove", "Clear", "Request":
+				sc.Steps[i].Inst = t.Choose(2)
+			}
+		}
+		sc.Steps = append(sc.Steps, c18Step{Kind: "Request", Verb: "Get", Inst: 0}, c18Step{Kind: "Request", Verb: "Post", Inst: 1})
+	}
 	return sc
 }
 
@@ -168,7 +182,7 @@ func (sc *c18Scenario) Run(s *simrt.Sim) {
 		defer func() { http.DefaultTransport = saved }()
 		clients[0] = &http.Client{}
 	}
-	var initial []*network.Interceptor
+	initial := make([]*network.Interceptor, 0, len(sc.Initial)+4) // spare capacity on purpose
 	var model []int
 	for _, i := range sc.Initial {
 		initial = append(initial, ics[i])
@@ -176,9 +190,20 @@ func (sc *c18Scenario) Run(s *simrt.Sim) {
 	}
 	sh := network.NewSimpleHTTPWithClientAndInterceptors(clients[0], initial...)
 	api := network.NewSimpleAPIWithSimpleHTTP("http://c18.example.test", sh)
+	shs := []*network.SimpleHTTPDef{sh}
+	apis := []*network.SimpleAPIDef{api}
+	models := [][]int{model}
+	if sc.Twin {
+		twinClient := &http.Client{Transport: &c18Stub{id: 50, log: &log, depth: &depth, seen: &seen}}
+		sh2 := network.NewSimpleHTTPWithClientAndInterceptors(twinClient, initial...)
+		shs = append(shs, sh2)
+		apis = append(apis, network.NewSimpleAPIWithSimpleHTTP("http://c18.example.test", sh2))
+		models = append(models, append([]int{}, model...))
+	}
+	curInst := 0
 	curCli := 0
 	add := func(clause, fp, detail string) {
-		sc.extra = append(sc.extra, Violation{Clause: clause, Fingerprint: fp, Detail: detail + fmt.Sprintf(" [model=%v client=%d]", model, curCli)})
+		sc.extra = append(sc.extra, Violation{Clause: clause, Fingerprint: fp, Detail: detail + fmt.Sprintf(" [instance=%d model=%v client=%d twin=%v]", curInst, model, curCli, sc.Twin)})
 	}
 	type result struct {
 		err error
@@ -222,6 +247,12 @@ func (sc *c18Scenario) Run(s *simrt.Sim) {
 		return op, rerr
 	}
 	for si, st := range sc.Steps {
+		if st.Inst < len(shs) {
+			// switch to the instance this step is about
+			models[curInst] = model
+			curInst = st.Inst
+			sh, api, model = shs[curInst], apis[curInst], models[curInst]
+		}
 		switch st.Kind {
 		case "Add":
 			var l []*network.Interceptor
